@@ -43,6 +43,8 @@ func main() {
 	fams := flag.String("fams", allFams, "families: k h s l z b(itmap) p(f) j(son)")
 	pairs := flag.Bool("pairs", false, "generate the batchable-pair sweep instead of random logs")
 	hllprobe := flag.Int("hllprobe", 0, "probe: stored bytes of one HyperLogLog key after a flush over this many identical runs")
+	partial := flag.Bool("partial", false, "generate the part-way failing writes sweep (every restore cut) instead of random logs")
+	big := flag.Bool("big", false, "generate the big-collection logs (range deletions; mem, pebble and rocksdb) instead of random logs")
 	edge := flag.Bool("edge", false, "generate the edge-argument sweep of the batchable commands instead of random logs")
 	keepRaw := flag.Bool("raw", false, "keep the raw engine dump in the note field")
 	flag.Parse()
@@ -104,6 +106,10 @@ func main() {
 		logs, vars = genPairs(*tier == "thorough")
 	} else if *edge {
 		logs, vars = genEdges()
+	} else if *partial {
+		logs, vars = genPartial()
+	} else if *big {
+		logs, vars = genBig()
 	} else {
 		r := hx.NewRng(*seed)
 		g := &gen{r: r}
@@ -424,6 +430,136 @@ func genEdges() ([]*Log, map[string][]*Variant) {
 				{ID: l.ID + ".v0", Engine: "mem", Part: partOne(m), Cut: -1, Expire: -1},
 				{ID: l.ID + ".v1", Engine: "mem", Part: partGiant(m, m), Cut: -1, Expire: -1},
 				{ID: l.ID + ".v2", Engine: "mem", Part: [][]Call{{{N: m}}}, Cut: -1, Expire: -1},
+			}
+		}
+	}
+	return logs, vars
+}
+
+// genPartial: a multi-part write that fails part-way (after staging something in the store's shared
+// write batch) between successful writes; applied live, and with a checkpoint + restore into a new
+// store + replay of the tail at EVERY cut point: whatever the failed command staged must not depend
+// on whether the following entries are applied by the same process.
+func genPartial() ([]*Log, map[string][]*Variant) {
+	long := strings.Repeat("M", 10241)
+	fails := [][]string{
+		{"mset", "t:a", "1", "notable", "2"}, {"plset", "t:a", "1", "notable", "2"},
+		{"mset", "t:a", "1", "t:" + strings.Repeat("K", 10240), "2"},
+		{"hmset", "t:a", "f", "1", long, "2"}, {"zadd", "t:a", "1", "m", "2", long}, {"sadd", "t:a", "m", long},
+		{"hmset", "t:a", "f", "1", "g"}, {"zadd", "t:a", "1", "m", "x", "n"}, {"rpush", "t:a", "1", long},
+		{"json.set", "t:a", "a", "{bad"}, {"setex", "t:a", "0", "v"}, {"hincrby", "t:a", "f", "x"},
+	}
+	nexts := [][]string{{"set", "t:b", "2"}, {"incr", "t:c"}, {"hmset", "t:h", "f", "1"}, {"sadd", "t:s", "m"}, {"del", "t:x"}}
+	var logs []*Log
+	vars := map[string][]*Variant{}
+	n := 0
+	for _, pol := range []string{"compact", "local"} {
+		for _, f := range fails {
+			for ni, nx := range nexts {
+				if ni > 1 && pol == "local" {
+					continue
+				}
+				n++
+				l := &Log{ID: "P" + strconv.Itoa(n), Policy: pol}
+				l.Reqs = append(l.Reqs, mkReq([]string{"set", "t:x", "0"}, sec), mkReq(f, 2*sec), mkReq(nx, 3*sec), mkReq([]string{"set", "t:y", "9"}, 4*sec))
+				m := len(l.Reqs)
+				logs = append(logs, l)
+				vs := []*Variant{{ID: l.ID + ".v0", Engine: "mem", Part: partOne(m), Cut: -1, Expire: -1}}
+				for c := 0; c <= m; c++ {
+					vs = append(vs, &Variant{ID: l.ID + ".v" + strconv.Itoa(c+1), Engine: "mem", Part: partOne(m), Cut: c, Expire: -1})
+				}
+				if ni == 0 {
+					vs = append(vs, &Variant{ID: l.ID + ".v" + strconv.Itoa(m+2), Engine: "pebble", Part: partOne(m), Cut: 2, Expire: -1})
+				}
+				vars[l.ID] = vs
+			}
+		}
+	}
+	return logs, vars
+}
+
+// genBig: collections larger than RangeDeleteNum (cleared by a RANGE deletion), re-created under the
+// same key and then trimmed / cleared again, on mem, pebble and rocksdb: range tombstones, the engines'
+// iterators over them and the size records must give the same replies and data everywhere.
+func genBig() ([]*Log, map[string][]*Variant) {
+	mem := func(prefix string, from, to int) []string {
+		o := make([]string, 0, to-from)
+		for i := from; i < to; i++ {
+			o = append(o, prefix+strconv.Itoa(100000+i))
+		}
+		return o
+	}
+	scored := func(from, to int) []string {
+		o := make([]string, 0, 2*(to-from))
+		for i := from; i < to; i++ {
+			o = append(o, strconv.Itoa(i), "m"+strconv.Itoa(100000+i))
+		}
+		return o
+	}
+	fv := func(from, to int) []string {
+		o := make([]string, 0, 2*(to-from))
+		for i := from; i < to; i++ {
+			o = append(o, "f"+strconv.Itoa(100000+i), "v")
+		}
+		return o
+	}
+	type step struct {
+		a  []string
+		dt int64 // ns after the previous entry
+	}
+	cat := func(h []string, t []string) []string { return append(append([]string{}, h...), t...) }
+	mk := func(sameTs bool) map[string][]step {
+		d := int64(sec)
+		if sameTs {
+			d = 0 // creation, clear and re-creation carry one timestamp (same value version under wait_compact)
+		}
+		return map[string][]step{
+			"z": {{cat([]string{"zadd", "t:big"}, scored(0, 2550)), sec}, {cat([]string{"zadd", "t:big"}, scored(2550, 5100)), d},
+				{[]string{"zclear", "t:big"}, d}, {[]string{"zadd", "t:big", "10", "a", "20", "b", "30", "c", "40", "d"}, d},
+				{[]string{"zremrangebyrank", "t:big", "0", "0"}, sec}, {[]string{"zremrangebyscore", "t:big", "15", "25"}, 1},
+				{[]string{"zremrangebylex", "t:big", "[c", "[c"}, 1}, {[]string{"zadd", "t:big", "5", "e"}, 1}, {[]string{"zincrby", "t:big", "1", "d"}, 1}},
+			"zr": {{cat([]string{"zadd", "t:big"}, scored(0, 2550)), sec}, {cat([]string{"zadd", "t:big"}, scored(2550, 5100)), d},
+				{[]string{"zremrangebyrank", "t:big", "0", "-1"}, d}, {[]string{"zadd", "t:big", "10", "a", "20", "b", "30", "c"}, d},
+				{[]string{"zremrangebyrank", "t:big", "1", "1"}, sec}, {[]string{"zrem", "t:big", "a", "zz"}, 1}},
+			"h": {{cat([]string{"hmset", "t:big"}, fv(0, 2550)), sec}, {cat([]string{"hmset", "t:big"}, fv(2550, 5100)), d},
+				{[]string{"hclear", "t:big"}, d}, {[]string{"hmset", "t:big", "a", "1", "b", "2"}, d},
+				{[]string{"hdel", "t:big", "a", "f100001"}, sec}, {[]string{"hincrby", "t:big", "b", "5"}, 1}, {[]string{"hset", "t:big", "f100002", "w"}, 1}},
+			"s": {{cat([]string{"sadd", "t:big"}, mem("m", 0, 2550)), sec}, {cat([]string{"sadd", "t:big"}, mem("m", 2550, 5100)), d},
+				{[]string{"sclear", "t:big"}, d}, {[]string{"sadd", "t:big", "a", "b", "m100001"}, d},
+				{[]string{"spop", "t:big", "2"}, sec}, {[]string{"srem", "t:big", "m100001", "m100002"}, 1}, {[]string{"sadd", "t:big", "m100003"}, 1}},
+			"l": {{cat([]string{"rpush", "t:big"}, mem("e", 0, 2550)), sec}, {cat([]string{"rpush", "t:big"}, mem("e", 2550, 5100)), d},
+				{[]string{"ltrim", "t:big", "5050", "-1"}, d}, {[]string{"lpush", "t:big", "x"}, d}, {[]string{"lpop", "t:big"}, sec},
+				{[]string{"lclear", "t:big"}, 1}, {[]string{"rpush", "t:big", "a", "b"}, 1}, {[]string{"rpop", "t:big"}, 1}},
+			"zx": {{cat([]string{"zadd", "t:big"}, scored(0, 2550)), sec}, {cat([]string{"zadd", "t:big"}, scored(2550, 5100)), d},
+				{[]string{"zexpire", "t:big", "1"}, d}, {[]string{"zadd", "t:big", "10", "a", "20", "b"}, 3 * sec},
+				{[]string{"zremrangebyrank", "t:big", "0", "0"}, 1}, {[]string{"zmclear", "t:big"}, 1}, {[]string{"zadd", "t:big", "1", "q"}, 1}},
+		}
+	}
+	var logs []*Log
+	vars := map[string][]*Variant{}
+	n := 0
+	for _, pol := range []string{"local", "compact"} {
+		for _, same := range []bool{false, true} {
+			if pol == "local" && same {
+				continue
+			}
+			classes := mk(same)
+			for _, name := range []string{"z", "zr", "h", "s", "l", "zx"} {
+				n++
+				l := &Log{ID: "G" + strconv.Itoa(n), Policy: pol}
+				ts := int64(0)
+				for _, st := range classes[name] {
+					ts += st.dt
+					l.Reqs = append(l.Reqs, mkReq(st.a, ts))
+				}
+				m := len(l.Reqs)
+				logs = append(logs, l)
+				vars[l.ID] = []*Variant{
+					{ID: l.ID + ".v0", Engine: "mem", Part: partOne(m), Cut: -1, Expire: -1},
+					{ID: l.ID + ".v1", Engine: "pebble", Part: partOne(m), Cut: -1, Expire: -1},
+					{ID: l.ID + ".v2", Engine: "rocksdb", Part: partOne(m), Cut: -1, Expire: -1},
+					{ID: l.ID + ".v3", Engine: "mem", Part: partGiant(m, m), Cut: -1, Expire: -1},
+				}
 			}
 		}
 	}
